@@ -193,17 +193,25 @@ theorem slot_correct (cfg : Cfg) (hb : BsGood cfg) (s : Slot) (hg : SlotGood cfg
 
 /-! ### 4. decidable soundness of the facts -/
 
+/-- the type-change branch cannot meet a treasure that just became void -/
+def voidSafeB (cfg : Cfg) : Bool := !(cfg.typeChangeDetected && cfg.setVoidClearsTyped)
+
+theorem voidSafe_of (cfg : Cfg) (h : voidSafeB cfg = true) :
+    cfg.typeChangeDetected = false ∨ cfg.setVoidClearsTyped = false := by
+  unfold voidSafeB at h
+  cases h1 : cfg.typeChangeDetected <;> cases h2 : cfg.setVoidClearsTyped <;> simp_all
+
 /-- the facts about index type `s` are the sound ones -/
 def slotGoodB (cfg : Cfg) : Slot → Bool
-  | .key => cfg.resortKey == .own
+  | .key => cfg.resortKey == .own && voidSafeB cfg
   | .created => cfg.resortCreated == .own && cfg.coldFilterCreated && cfg.addGuardCreated &&
-      cfg.updRefreshCreated
+      cfg.updRefreshCreated && voidSafeB cfg
   | .updated => cfg.resortUpdated == .own && cfg.coldFilterUpdated && cfg.addGuardUpdated &&
-      cfg.updRefreshUpdated
+      cfg.updRefreshUpdated && voidSafeB cfg
   | .expire => cfg.resortExpire == .own && cfg.coldFilterExpire && cfg.addGuardExpire &&
-      cfg.updRefreshExpireOnFlag
+      cfg.updRefreshExpireOnFlag && voidSafeB cfg
   | .value _ => !cfg.valueShared && cfg.resortValue == .own && cfg.coldFilterValueType && cfg.addGuardValueType &&
-      cfg.updRefreshValue
+      cfg.updRefreshValue && voidSafeB cfg
 
 def bsGoodB (cfg : Cfg) : Bool :=
   cfg.bsAscFrom == .lt && cfg.bsAscTo == .lt && cfg.bsDescTo == .lt && cfg.bsDescFrom == .lt
@@ -215,31 +223,35 @@ theorem bsGood_of (cfg : Cfg) (h : bsGoodB cfg = true) : BsGood cfg := by
 theorem slotGood_of (cfg : Cfg) (s : Slot) (h : slotGoodB cfg s = true) : SlotGood cfg s := by
   cases s with
   | key =>
-    simp only [slotGoodB, Bool.and_eq_true, beq_iff_eq, Bool.not_eq_true'] at h
+    simp only [slotGoodB, Bool.and_eq_true, beq_iff_eq] at h
     exact { phys := rfl, cold := fun _ => rfl, guard := fun _ => rfl,
-            resort := by simp [incrSort, h],
+            resort := by simp [incrSort, h.1],
             exclusive := by intro s' hs'; cases s' <;> simp_all [phys],
+            voidSafe := voidSafe_of cfg h.2,
             stable := fun o rq => Or.inr (by simp [attrEq, mergeRec]) }
   | created =>
-    simp only [slotGoodB, Bool.and_eq_true, beq_iff_eq, Bool.not_eq_true'] at h
-    obtain ⟨⟨⟨h1, h2⟩, h3⟩, h4⟩ := h
+    simp only [slotGoodB, Bool.and_eq_true, beq_iff_eq] at h
+    obtain ⟨⟨⟨⟨h1, h2⟩, h3⟩, h4⟩, h5⟩ := h
     exact { phys := rfl, cold := fun _ => by simp [coldIncl, carries, h2], guard := fun _ => by simp [addGuard, carries, h3],
             resort := by simp [incrSort, h1],
             exclusive := by intro s' hs'; cases s' <;> simp_all [phys],
+            voidSafe := voidSafe_of cfg h5,
             stable := fun o rq => Or.inl (by simp [refreshes, h4]) }
   | updated =>
-    simp only [slotGoodB, Bool.and_eq_true, beq_iff_eq, Bool.not_eq_true'] at h
-    obtain ⟨⟨⟨h1, h2⟩, h3⟩, h4⟩ := h
+    simp only [slotGoodB, Bool.and_eq_true, beq_iff_eq] at h
+    obtain ⟨⟨⟨⟨h1, h2⟩, h3⟩, h4⟩, h5⟩ := h
     exact { phys := rfl, cold := fun _ => by simp [coldIncl, carries, h2], guard := fun _ => by simp [addGuard, carries, h3],
             resort := by simp [incrSort, h1],
             exclusive := by intro s' hs'; cases s' <;> simp_all [phys],
+            voidSafe := voidSafe_of cfg h5,
             stable := fun o rq => Or.inl (by simp [refreshes, h4]) }
   | expire =>
-    simp only [slotGoodB, Bool.and_eq_true, beq_iff_eq, Bool.not_eq_true'] at h
-    obtain ⟨⟨⟨h1, h2⟩, h3⟩, h4⟩ := h
+    simp only [slotGoodB, Bool.and_eq_true, beq_iff_eq] at h
+    obtain ⟨⟨⟨⟨h1, h2⟩, h3⟩, h4⟩, h5⟩ := h
     exact { phys := rfl, cold := fun _ => by simp [coldIncl, carries, h2], guard := fun _ => by simp [addGuard, carries, h3],
             resort := by simp [incrSort, h1],
             exclusive := by intro s' hs'; cases s' <;> simp_all [phys],
+            voidSafe := voidSafe_of cfg h5,
             stable := by
               intro o rq
               by_cases he : rq.expire = 0
@@ -247,11 +259,12 @@ theorem slotGood_of (cfg : Cfg) (s : Slot) (h : slotGoodB cfg s = true) : SlotGo
               · exact Or.inl (by simp [refreshes, h4, mergeRec, he]) }
   | value t =>
     simp only [slotGoodB, Bool.and_eq_true, beq_iff_eq, Bool.not_eq_true'] at h
-    obtain ⟨⟨⟨⟨h0, h1⟩, h2⟩, h3⟩, h4⟩ := h
+    obtain ⟨⟨⟨⟨⟨h0, h1⟩, h2⟩, h3⟩, h4⟩, h5⟩ := h
     exact { phys := by simp [phys, h0], cold := fun _ => by simp [coldIncl, carries, h2],
             guard := fun _ => by simp [addGuard, carries, h3],
             resort := by simp [incrSort, h1],
             exclusive := by intro s' hs'; cases s' <;> simp_all [phys],
+            voidSafe := voidSafe_of cfg h5,
             stable := by
               intro o rq
               -- re-filed whenever `contentChanged` is up; when it is not, the content did not move
@@ -260,12 +273,12 @@ theorem slotGood_of (cfg : Cfg) (s : Slot) (h : slotGoodB cfg s = true) : SlotGo
                 simp only [mergeRec, Bool.or_eq_false_iff, Bool.and_eq_false_iff, Bool.not_eq_false',
                   bne_eq_false_iff_eq] at hc
                 simp only [attrEq, mergeRec]
-                by_cases hk : (rq.ct == CT.void) = true
-                · simp [hk]
-                · simp only [hk, Bool.false_eq_true, if_false]
-                  rcases hc.2 with h | h
-                  · exact absurd h hk
-                  · exact ⟨h.2.symm, h.1.symm⟩
+                rcases hc.2 with hkeep | hsame
+                · simp [hkeep]
+                · by_cases hkeep : (rq.ct == CT.void && !cfg.setVoidClearsTyped) = true
+                  · simp [hkeep]
+                  · simp only [hkeep, Bool.false_eq_true, if_false]
+                    exact ⟨hsame.2.symm, hsame.1.symm⟩
               · exact Or.inl (by simp [refreshes, h4, hc]) }
 
 /-- all facts sound -/
@@ -401,7 +414,9 @@ def witnesses : List (String × List Op × Query) := [
   ("C07-window-bounds-operator", [setOp "k1" .i64 1 3 0 0, setOp "k2" .i64 2 5 0 0], windowRead .created false (some 3) none),
   ("C07-cold-build-no-zero-filter", [setOp "k1" .i64 1 0 0 0, setOp "k2" .i64 2 2 2 2], fullRead .created true),
   ("C07-cold-build-no-zero-filter", [setOp "k1" .i64 1 0 0 0, setOp "k2" .i64 2 2 2 2], fullRead .updated true),
-  ("C07-cold-build-no-zero-filter", [setOp "k1" .i64 1 0 0 0, setOp "k2" .i64 2 2 2 2], fullRead .expire true)]
+  ("C07-cold-build-no-zero-filter", [setOp "k1" .i64 1 0 0 0, setOp "k2" .i64 2 2 2 2], fullRead .expire true),
+  ("C07-void-dropped-from-key-index",
+    [setOp "k1" .i64 1 0 0 0, .read (fullRead .key true), setOp "k1" .void 0 0 0 0], fullRead .key true)]
 
 /-- the findings whose witness fails under `cfg` -/
 def findings (cfg : Cfg) : List String :=
@@ -421,13 +436,13 @@ def beforeFix : Cfg := {
   coldFilterCreated := true, coldFilterUpdated := true, coldFilterExpire := true, coldFilterValueType := false,
   addGuardCreated := true, addGuardUpdated := true, addGuardExpire := true, addGuardValueType := false,
   updRefreshCreated := false, updRefreshUpdated := false, updRefreshValue := false, updRefreshExpireOnFlag := true,
-  typeChangeDetected := false, valueShared := true, flagsSticky := true }
+  typeChangeDetected := false, valueShared := true, flagsSticky := true, setVoidClearsTyped := false }
 
 /-- the facts of the tree as of this writing: `SaveFunction` re-files a treasure in the built
     creation-time or update-time index when that timestamp changes, and any add to / content change in
     a built value index drops it (the next read rebuilds it with the requested type's comparator) -/
 def current : Cfg := { beforeFix with
-  resortValue := .invalidate, updRefreshCreated := true, updRefreshUpdated := true, updRefreshValue := true }
+  setVoidClearsTyped := true, resortValue := .invalidate, updRefreshCreated := true, updRefreshUpdated := true, updRefreshValue := true }
 
 /-- the repaired facts -/
 def repaired : Cfg := { beforeFix with
@@ -482,6 +497,10 @@ theorem holds_repaired : Holds repaired := holds_of_good repaired (by decide)
 /-- …also when the `SetContent…` setters are repaired to raise `contentTypeChanged` (the first
     `SaveFunction` branch becomes reachable): a Set never turns typed content into void -/
 example : goodB { repaired with typeChangeDetected := true } = true := by decide
+/-- …but not together with a `SetContentVoid` that clears typed content: the type-change branch
+    then drops the void treasure from every index, the key index included -/
+example : goodB { repaired with typeChangeDetected := true, setVoidClearsTyped := true } = false := by decide
+example : findings { repaired with typeChangeDetected := true, setVoidClearsTyped := true } = ["C07-void-dropped-from-key-index"] := by decide
 
 /-- non-vacuity of the partial theorem: before the fixes the key and expiration-time indexes
     satisfy it; now all four non-value index types do, the value indexes still do not -/
@@ -551,6 +570,7 @@ structure Facts where
   typeChangeDetected : Tri
   valueShared : Tri
   flagsSticky : Tri
+  setVoidClearsTyped : Tri
   /-- `GetBeacon` (used by ShiftMatching, C11) serves all eleven value index types / builds the
       requested type: recorded, not used by the index-read path -/
   getBeaconServesAllValueTypes : Tri
@@ -577,7 +597,8 @@ def cfgOf (f : Facts) : Cfg := {
   addGuardExpire := f.addGuardExpire.isYes, addGuardValueType := f.addGuardValueType.isYes,
   updRefreshCreated := f.updRefreshCreated.isYes, updRefreshUpdated := f.updRefreshUpdated.isYes,
   updRefreshValue := f.updRefreshValue.isYes, updRefreshExpireOnFlag := f.updRefreshExpireOnFlag.isYes,
-  typeChangeDetected := f.typeChangeDetected.isYes, valueShared := f.valueShared.isYes, flagsSticky := f.flagsSticky.isYes }
+  typeChangeDetected := f.typeChangeDetected.isYes, valueShared := f.valueShared.isYes, flagsSticky := f.flagsSticky.isYes,
+  setVoidClearsTyped := f.setVoidClearsTyped.isYes }
 
 /-- a fact the model depends on was not recognised in the source -/
 def unknownFact (f : Facts) : Option String :=
@@ -593,7 +614,7 @@ def unknownFact (f : Facts) : Option String :=
   if [f.coldFilterCreated, f.coldFilterUpdated, f.coldFilterExpire, f.coldFilterValueType,
       f.addGuardCreated, f.addGuardUpdated, f.addGuardExpire, f.addGuardValueType,
       f.updRefreshCreated, f.updRefreshUpdated, f.updRefreshValue, f.updRefreshExpireOnFlag,
-      f.typeChangeDetected, f.valueShared, f.flagsSticky].any (· == .unknown) then
+      f.typeChangeDetected, f.valueShared, f.flagsSticky, f.setVoidClearsTyped].any (· == .unknown) then
     some "treasuresForBeacon / addTreasureToBeacons / SaveFunction / treasure flags" else
   none
 
